@@ -458,7 +458,64 @@ def truthy_optional(fn) -> List[Tuple[ast.AST, str]]:
     return res
 
 
+def shifted_not_summed(fn) -> List[Tuple[ast.AST, str]]:
+    """`starts = [0] + sizes[:-1]` gives each element the size of its predecessor as its start; the start of element
+    i is the SUM of the sizes before it.  The two agree for at most two elements.  Fires when `sizes` is a plain list
+    of sizes (not a running sum) and the result is used as the lower bound of a slice."""
+    binds = {}
+    for n in ast.walk(fn):
+        if isinstance(n, ast.Assign) and len(n.targets) == 1 and isinstance(n.targets[0], ast.Name):
+            binds.setdefault(n.targets[0].id, []).append(n.value)
+
+    def shifted(v):
+        """the name S when v is `[0] + S[:-1]` (or with list(...) around the slice) and S is not a running sum"""
+        if not (isinstance(v, ast.BinOp) and isinstance(v.op, ast.Add) and isinstance(v.left, ast.List) and len(v.left.elts) == 1 and isinstance(v.left.elts[0], ast.Constant) and v.left.elts[0].value == 0):
+            return None
+        r = v.right
+        if isinstance(r, ast.Call) and isinstance(r.func, ast.Name) and r.func.id == "list" and len(r.args) == 1:
+            r = r.args[0]
+        if not (isinstance(r, ast.Subscript) and isinstance(r.slice, ast.Slice) and r.slice.lower is None and r.slice.step is None and isinstance(r.slice.upper, ast.UnaryOp) and isinstance(r.slice.upper.op, ast.USub) and isinstance(r.slice.upper.operand, ast.Constant) and r.slice.upper.operand.value == 1 and isinstance(r.value, ast.Name)):
+            return None
+        src = r.value.id
+        if len(binds.get(src, [])) != 1:
+            return None
+        if any(isinstance(x, ast.Call) and (norm(x.func).split(".")[-1] in ("accumulate", "cumsum")) for x in ast.walk(binds[src][0])):
+            return None
+        return src
+
+    cands = []  # (expression node, names that hold one of its elements or the list itself)
+    for n in ast.walk(fn):
+        if isinstance(n, ast.BinOp) and shifted(n) is not None:
+            cands.append(n)
+    res = []
+    for v in cands:
+        names, elems = set(), set()
+        for nm, vals in binds.items():
+            if any(x is v for x in vals):
+                names.add(nm)
+        for n in ast.walk(fn):
+            gens = n.generators if isinstance(n, (ast.ListComp, ast.GeneratorExp, ast.SetComp, ast.DictComp)) else ([n] if isinstance(n, ast.For) else [])
+            for g in gens:
+                it, tg = g.iter, g.target
+                if isinstance(it, ast.Call) and isinstance(it.func, ast.Name) and it.func.id == "zip" and isinstance(tg, ast.Tuple) and len(tg.elts) == len(it.args):
+                    for a_, t_ in zip(it.args, tg.elts):
+                        if isinstance(t_, ast.Name) and (a_ is v or (isinstance(a_, ast.Name) and a_.id in names)):
+                            elems.add(t_.id)
+                elif isinstance(tg, ast.Name) and (it is v or (isinstance(it, ast.Name) and it.id in names)):
+                    elems.add(tg.id)
+        used = False
+        for n in ast.walk(fn):
+            if isinstance(n, ast.Subscript) and isinstance(n.slice, ast.Slice) and n.slice.lower is not None:
+                low = n.slice.lower
+                if any(isinstance(x, ast.Name) and x.id in elems for x in ast.walk(low)) or any(isinstance(x, ast.Subscript) and isinstance(x.value, ast.Name) and x.value.id in names for x in ast.walk(low)):
+                    used = True
+        if used:
+            res.append((v, f"`{norm(v)[:50]}` takes the size of the preceding element as each start offset; the offset of element i is the sum of ALL sizes before it - from the third element on the slices overlap / fall short"))
+    return res
+
+
 RULES = (
+    ("OFFSET-SUM", shifted_not_summed, "start offsets are running sums of the sizes"),
     ("TRUTHY-OPTIONAL", truthy_optional, "an optional value argument is compared with None, never asked for its truth value"),
     ("STALE-PRECEDENCE", stale_precedence, "the latest definition of a symbol takes precedence over its initial binding"),
     ("NAME-BINDERS", name_binders, "a collector of re-bound names knows every binding statement kind"),
@@ -471,6 +528,12 @@ RULES = (
 )
 
 POSITIVE = {
+    "OFFSET-SUM": """
+def decode(out, targs):
+    sizes = [size_of(x) for x in targs]
+    starts = [0] + sizes[:-1]
+    return tuple(interp(out[s : s + ln], x) for x, s, ln in zip(targs, starts, sizes))
+""",
     "TRUTHY-OPTIONAL": """
 def search(self, oracle, element_to_search: Optional[Any] = None):
     self.oracle = oraclize(oracle, element_to_search) if element_to_search else oracle
@@ -534,6 +597,14 @@ def compile_thing(self, qc, expr, dest=None):
 }
 
 NEGATIVE = {
+    "OFFSET-SUM": """
+def decode(out, targs):
+    sizes = [size_of(x) for x in targs]
+    ends = list(accumulate(sizes))
+    starts = [0] + ends[:-1]
+    prev = [0] + sizes[:-1]
+    return tuple(interp(out[s : s + ln], x) for x, s, ln in zip(targs, starts, sizes)), prev
+""",
     "TRUTHY-OPTIONAL": """
 def search(self, oracle, element_to_search: Optional[Any] = None, name: Optional[str] = None, discard_lower=None):
     self.oracle = oraclize(oracle, element_to_search) if element_to_search is not None else oracle
@@ -683,6 +754,13 @@ def check(ctx, pid: Optional[str] = None, prefixes: Optional[Tuple[str, ...]] = 
     """one obligation per rule for the scan (with the number of functions scanned), a violation per instance"""
     pid = pid or ctx.prop
     prefixes = prefixes or scope_of(pid)
+    try:
+        import importlib
+
+        extra = getattr(importlib.import_module(f"qv.props.{pid.lower()}"), "LINT_EXTRA", ())
+    except ModuleNotFoundError:
+        extra = ()
+    prefixes = tuple(prefixes) + tuple(extra)
     for rule, fn, _ in RULES:
         pos = [n for n in ast.parse(POSITIVE[rule]).body if isinstance(n, ast.FunctionDef)][0]
         neg = [n for n in ast.parse(NEGATIVE[rule]).body if isinstance(n, ast.FunctionDef)][0]
